@@ -163,4 +163,19 @@ def build(ctx):
                                         cap=ctx.q(150, 900), meta={"big_loops": ["ref_walk_%s.%d" % (msg.name, k) for k in range(16)]},
                                         desc="message %s.%s level %s: getters %s == byte-level reference decode; buffer unchanged" % (sch.ns, msg.name, lv.name, [a[0] for a in chunk]),
                                         bounds={"N": N, "G": G, "D": D, "std": "c++" + std, "build": mode, "byte_order": "BE" if sch.be else "LE"}))
+    # extreme data length: the member after a <data> whose length is anywhere in 0..255 (uint8 length type)
+    for (xml, std, mode) in plan(ctx)[:2 if ctx.quick else None]:
+        if os.path.isabs(xml): continue
+        sch, inc = hgen.gen_headers(ctx, xml)
+        if not [m for m in sch.messages if m.name == "odd"]: continue
+        msg = sch.message("odd")
+        g = msggen.MG(sch, msg, 1)
+        u = ctx.lower("c02_%s_%s" % (sch.ns, msg.name), g.cpp_prelude() + g.cpp_getset(setters=False) + g.cpp_geom(mutators=False), std=std, mode=mode, incs=[inc])
+        N = g.max_size(0, 255) - 255 + 6
+        for a in [x for x in dyn_arms(g, g.levels[0]) if x[0] == "data_db"]:
+            hs.append(P.Harness("%s_odd_bigdata_%s_%s_cxx%s" % (sch.ns, a[0], mode, std), harness(u, g, [a], N, 0, 255), [u], unwind=4,
+                                cap=ctx.q(200, 900), backends=["minisat", "kissat"], extra_flags=["--no-standard-checks"],
+                                meta={"big_loops": ["ref_walk_odd.%d" % x for x in range(16)]},
+                                desc="message %s.odd: getters of the data member that follows a <data> of ANY uint8 length 0..255" % sch.ns,
+                                bounds={"N": N, "G": 1, "D": "0..255", "std": "c++" + std, "build": mode}))
     return hs
